@@ -205,6 +205,14 @@ theorem sweepFwd_inv (N L : Nat) (t : Nat → Nat)
 
 /-! ### the specification -/
 
+/-- the tabulated step 1 is the function `i ↦ if i < n then f i else d` -/
+theorem getD_map_range (n d : Nat) (f : Nat → Nat) :
+    (fun i => ((List.range n).map f).getD i d) = fun i => if i < n then f i else d := by
+  funext i
+  by_cases h : i < n
+  · simp [List.getD_eq_getElem?_getD, h]
+  · simp [List.getD_eq_getElem?_getD, h]
+
 theorem threadLayersFn_spec (nW numElems : Nat) (le : List Nat)
     (h1 : 1 ≤ nW) (h3 : 3 * nW ≤ le.length) :
     ∃ tl : Nat → Nat, threadLayersFn nW numElems le = some tl ∧ tl 0 = 0 ∧ tl nW = le.length - 1 ∧
@@ -242,7 +250,7 @@ theorem threadLayersFn_spec (nW numElems : Nat) (le : List Nat)
     omega
   refine ⟨sweepFwd nW t2, ?_, g0, gN, f3⟩
   unfold threadLayersFn
-  simp only [e1]
+  simp only [getD_map_range, e1]
   rw [if_pos ⟨g0, gN⟩]
 
 theorem buildThreadLayers_spec (maxW numElems : Nat) (le : List Nat)
